@@ -66,6 +66,22 @@ CHECKS = {
              "against the receiver's LR and the selected bit rate.",
         note="Both devices are nfcpy; passive activation at 106A over the "
              "virtual air; default schedule, no faults (those are C04/C09)."),
+    'C06': dict(
+        category='exploration', design='2/C06',
+        technique="exhaustive grid enumeration of whole-stack SNEP/handover "
+                  "transfers on a virtual air against the sent octets",
+        text="For every grid point (link MIU pair x server socket MIU/RW x "
+             "client role x put/get/handover/two handover requests x message "
+             "sizes around multiples of the negotiated connection MIU x "
+             "aggregation, plus acceptable-length limits s-1,s,s+1) a real "
+             "SnepServer/HandoverServer and client run over the complete "
+             "stack (connect(), LLC, NFC-DEP, udp driver on in-memory "
+             "sockets); octets at the server application and at the client "
+             "must equal the sent ones exactly once, over-limit messages must "
+             "be refused without partial delivery.",
+        note="Default schedule, no faults; both devices are nfcpy; the SNEP "
+             "client's own socket parameters are fixed by the library "
+             "(MIU 128, RW 1)."),
 }
 
 NOT_YET = "check not built yet in this round (see DESIGN.md section 2 for the planned design)"
